@@ -32,6 +32,7 @@ def b64(b):
 
 def valid_child(kind, el, which):
     """XML of a valid one* child and the driver-side value it denotes"""
+    el = el.replace("&", "&amp;").replace("<", "&lt;").replace(">", "&gt;").replace('"', "&quot;")
     if kind == "text":
         v = ("w1", "w2", "w3", "w4")[which]
         return '<oneText name="%s">%s</oneText>' % (el, v), v
@@ -57,9 +58,9 @@ def catalogue(kind):
     F.append(("unknown-device", new_msg(k, [vc], device="NOPE"), []))
     F.append(("unknown-property", new_msg(k, [vc], name="NOPE"), []))
     F.append(("unknown-element", new_msg(k, [valid_child(k, "ZZ", 3)[0]]), []))
-    for odd in ("a", "t", "Target", "TGT"):
+    for odd in ("a", "t", "Target \u00b5m <&>", "TGT"):
         # names that are no element names but collide with python attribute keys, the vector's name or label
-        F.append(("unknown-element-%s" % odd, new_msg(k, [valid_child(k, odd, 3)[0]]), []))
+        F.append(("unknown-element-%s" % ("label" if " " in odd else odd), new_msg(k, [valid_child(k, odd, 3)[0]]), []))
     F.append(("unknown-element-then-valid", new_msg(k, [valid_child(k, "ZZ", 3)[0], vc]), [("TGT", "A", vv)]))
     for other in ("text", "number", "switch", "blob"):
         if other != k or kind == "light":
